@@ -444,7 +444,7 @@ func TestVerifC12(t *testing.T) {
 		t.Skip("-out required")
 	}
 	o := c12Open()
-	o.Rule = "a case is one history over up to four ValidatorSets (NewValidatorSet, IncrementProposerPriority(k), UpdateWithChangeSet, Copy, runs of single rounds); non-trivial = the history contains a successful membership/power change, a rejected change set, a rescale (spread above the window) or a tie-break; distinct by (initial powers, op-kind string, outcome string)"
+	o.Rule = "a case is one history over up to four ValidatorSets (NewValidatorSet, IncrementProposerPriority(k), UpdateWithChangeSet, Copy, CopyIncrementProposerPriority, runs of single rounds, validator reports through calculateValidatorSetUpdates + updateState) and one LatestBlockState carried through updateState block after block; non-trivial = the history contains a successful membership/power change, a rejected change set, a rescale (spread above the window) or a tie-break; distinct by (initial powers, op-kind string, outcome string)"
 	root := c12NewRand(*c12Seed)
 	for c := 0; c < *c12N; c++ {
 		if !c12Want(c) {
@@ -463,6 +463,19 @@ type world struct {
 	kinds []string
 	outs  []string
 	last  [nSlots][]vrec // state of every set after the last operation (isolation oracle)
+	// the chain: a LatestBlockState carried from block to block through updateState, and next to it the
+	// three validator sets as the specification alone derives them from the genesis set and the reports
+	// (never re-synchronised from the implementation)
+	chain     LatestBlockState
+	chainOn   bool
+	chainLast [3][]vrec
+	specLast  []sval
+	specCur   []sval
+	specNext  []sval
+	specPCur  uint64 // proposer recorded in specCur / specLast (0 = none)
+	specPLast uint64
+	specPNext uint64
+	specLC    uint64
 	// rounds since the last membership change per slot are tracked inside doRounds
 }
 
@@ -522,6 +535,15 @@ func (w *world) isolate(touched int) {
 			w.o.Fail(w.step, "isolation", fmt.Sprintf("set %d changed by an operation on set %d: was=%s now=%s", j, touched, recsStr(w.last[j]), recsStr(cur)))
 		}
 		w.last[j] = cur
+	}
+	if w.chainOn {
+		for k, vs := range []*types.ValidatorSet{w.chain.LastValidators, w.chain.Validators, w.chain.NextValidators} {
+			cur := snapOrNil(vs)
+			if touched >= 0 && !sameRecs(cur, w.chainLast[k]) {
+				w.o.Fail(w.step, "isolation", fmt.Sprintf("chain set %d changed by an operation on set %d: was=%s now=%s", k, touched, recsStr(w.chainLast[k]), recsStr(cur)))
+			}
+			w.chainLast[k] = cur
+		}
 	}
 }
 
@@ -953,6 +975,275 @@ func (w *world) doReport(slot int, report []vrec, kind string, ask bool) {
 	}
 	w.isolate(slot)
 	w.o.Op(fmt.Sprintf("A %d %d %d%s", slot, a, len(report), triples(report)), observe(w.o, w.step, w.slots[slot], ask, status, nil))
+}
+
+// ---- dst := src.CopyIncrementProposerPriority(k)
+func (w *world) doCopyInc(src, dst int, k int64, ask bool) {
+	w.step++
+	before := w.current(src)
+	expectPanic := len(before) == 0 || k <= 0
+	var cp *types.ValidatorSet
+	panicked, msg := catch(func() { cp = w.slots[src].CopyIncrementProposerPriority(k) })
+	status := "ok"
+	if panicked {
+		status = "PANIC"
+		if !expectPanic {
+			w.o.Fail(w.step, "panic", "CopyIncrementProposerPriority:"+msg)
+		}
+		w.note("copyinc", "panic")
+	} else if expectPanic {
+		w.o.Fail(w.step, "spec-increment", "CopyIncrementProposerPriority: no panic on empty set / non-positive times")
+	} else {
+		want := toSpec(before)
+		prop := specIncrement(want, k, types.PriorityWindowSizeFactor)
+		got := snapshot(cp)
+		if !specMatches(want, got) {
+			w.o.Fail(w.step, "spec-increment", fmt.Sprintf("copy-increment k=%d before=%s got=%s want=%s", k, recsStr(before), recsStr(got), specStr(want)))
+		}
+		if g := cp.GetProposer(); g == nil || idNum(g.Address) != prop {
+			w.o.Fail(w.step, "spec-proposer", fmt.Sprintf("copy-increment k=%d before=%s want proposer %d", k, recsStr(before), prop))
+		}
+		if src != dst && !sameRecs(before, w.current(src)) {
+			w.o.Fail(w.step, "isolation", fmt.Sprintf("CopyIncrementProposerPriority changed its receiver: was=%s now=%s", recsStr(before), recsStr(w.current(src))))
+		}
+		w.slots[dst] = cp
+		w.note("copyinc", "ok")
+	}
+	a := 0
+	if ask {
+		a = 1
+	}
+	w.isolate(dst)
+	w.o.Op(fmt.Sprintf("J %d %d %d %d", src, dst, a, k), observe(w.o, w.step, w.slots[dst], ask, status, nil))
+}
+
+// ---- the chain: LatestBlockState carried through updateState block after block
+
+func propID(vs *types.ValidatorSet) uint64 {
+	if vs == nil || len(vs.Validators) == 0 {
+		return 0
+	}
+	if g := vs.Copy().GetProposer(); g != nil {
+		return idNum(g.Address)
+	}
+	return 0
+}
+
+func snapOrNil(vs *types.ValidatorSet) []vrec {
+	if vs == nil {
+		return nil
+	}
+	return snapshot(vs)
+}
+
+func specRecs(s []sval) []vrec {
+	rs := make([]vrec, len(s))
+	for i, v := range s {
+		rs[i] = vrec{v.id, v.power.Int64(), 0}
+	}
+	return rs
+}
+
+func specCopy(s []sval) []sval {
+	c := make([]sval, len(s))
+	for i, v := range s {
+		c[i] = sval{v.id, new(big.Int).Set(v.power), new(big.Int).Set(v.prio)}
+	}
+	return c
+}
+
+// setBody prints "T=.. P=.. V=.." of one of the chain's sets (nil = the empty set).
+func (w *world) setBody(vs *types.ValidatorSet, ask bool) string {
+	if vs == nil {
+		if ask {
+			return "T=0 P=- V=-"
+		}
+		return "T=0 P=? V=-"
+	}
+	return strings.TrimPrefix(observe(w.o, w.step, vs, ask, "ok", nil), "ok ")
+}
+
+// chainLine: the observable line of the whole chain state, and the proposers of rounds 1..3 of the next block
+func (w *world) chainLine(status string, ask bool) string {
+	st := w.chain
+	rp := make([]string, 3)
+	for r := 1; r <= 3; r++ {
+		rp[r-1] = "x"
+		if st.Validators != nil && len(st.Validators.Validators) > 0 {
+			catch(func() {
+				if g := st.Validators.CopyIncrementProposerPriority(int64(r)).GetProposer(); g != nil {
+					rp[r-1] = idOf(g.Address)
+				}
+			})
+		}
+	}
+	l, c, n := w.setBody(st.LastValidators, ask), w.setBody(st.Validators, ask), w.setBody(st.NextValidators, ask)
+	return fmt.Sprintf("%s H=%d LC=%d L{%s} C{%s} N{%s} RP=%s", status, st.LastBlockHeight, st.LastHeightValidatorsChanged, l, c, n, strings.Join(rp, ","))
+}
+
+// checkChainAgainstSpec: the three sets are what the specification alone derives from the history
+func (w *world) checkChainAgainstSpec(where string) {
+	st := w.chain
+	type pair struct {
+		name string
+		vs   *types.ValidatorSet
+		want []sval
+		prop uint64
+	}
+	for _, p := range []pair{{"LastValidators", st.LastValidators, w.specLast, w.specPLast}, {"Validators", st.Validators, w.specCur, w.specPCur}, {"NextValidators", st.NextValidators, w.specNext, w.specPNext}} {
+		got := snapOrNil(p.vs)
+		if !specMatches(p.want, got) {
+			w.o.Fail(w.step, "pipeline", fmt.Sprintf("%s: %s at height %d is not the set the history specifies: got=%s want=%s", where, p.name, st.LastBlockHeight, recsStr(got), specStr(p.want)))
+		}
+		if p.prop != 0 && propID(p.vs) != p.prop {
+			w.o.Fail(w.step, "pipeline", fmt.Sprintf("%s: proposer of %s at height %d is %d, the history specifies %d", where, p.name, st.LastBlockHeight, propID(p.vs), p.prop))
+		}
+	}
+	if st.LastHeightValidatorsChanged != w.specLC {
+		w.o.Fail(w.step, "pipeline", fmt.Sprintf("%s: LastHeightValidatorsChanged=%d at height %d, the history specifies %d", where, st.LastHeightValidatorsChanged, st.LastBlockHeight, w.specLC))
+	}
+	// the proposer of round r of the next block: r rounds of the specified round-robin from Validators
+	if len(w.specCur) > 0 && st.Validators != nil && len(st.Validators.Validators) > 0 {
+		for r := int64(1); r <= 3; r++ {
+			want := specIncrement(specCopy(w.specCur), r, types.PriorityWindowSizeFactor)
+			var got uint64
+			before := snapshot(st.Validators)
+			if p, m := catch(func() { got = propID(st.Validators.CopyIncrementProposerPriority(r)) }); p {
+				w.o.Fail(w.step, "panic", "CopyIncrementProposerPriority:"+m)
+			} else if got != want {
+				w.o.Fail(w.step, "spec-proposer", fmt.Sprintf("%s: proposer of round %d after height %d is %d, specified %d (Validators=%s)", where, r, st.LastBlockHeight, got, want, recsStr(before)))
+			}
+			if !sameRecs(before, snapshot(st.Validators)) {
+				w.o.Fail(w.step, "isolation", "CopyIncrementProposerPriority changed the state's Validators")
+			}
+		}
+	}
+}
+
+// genesis arrangement from the set in a slot (MakeGenesisState: Validators, its CopyIncrementProposerPriority(1), nil)
+func (w *world) doGenesis(slot int, ask bool) {
+	w.step++
+	vs := w.slots[slot]
+	before := w.current(slot)
+	status := "ok"
+	var nx *types.ValidatorSet
+	panicked, msg := catch(func() { nx = vs.CopyIncrementProposerPriority(1) })
+	if panicked {
+		status = "PANIC"
+		if len(before) > 0 {
+			w.o.Fail(w.step, "panic", "genesis:"+msg)
+		}
+	} else {
+		w.chain = LatestBlockState{ChainID: "verif", InitialHeight: 1, LastBlockHeight: 0, NextValidators: nx,
+			Validators: vs.Copy(), LastValidators: nil, LastHeightValidatorsChanged: 1}
+		w.chainOn = true
+		w.specLast, w.specPLast = nil, 0
+		w.specCur, w.specPCur = toSpec(before), propID(vs)
+		w.specNext = toSpec(before)
+		w.specPNext = specIncrement(w.specNext, 1, types.PriorityWindowSizeFactor)
+		w.specLC = 1
+		w.checkChainAgainstSpec("genesis")
+	}
+	w.note("genesis", status)
+	a := 0
+	if ask {
+		a = 1
+	}
+	w.isolate(-1)
+	w.o.Op(fmt.Sprintf("G %d %d", slot, a), w.chainLine(status, ask))
+}
+
+// one block: calculateValidatorSetUpdates + updateState on the carried state
+func (w *world) doBlock(report []vrec, kind string, ask bool) {
+	w.step++
+	st := w.chain
+	oldL, oldC, oldN := snapOrNil(st.LastValidators), snapOrNil(st.Validators), snapOrNil(st.NextValidators)
+	oldPL, oldPC, oldPN := propID(st.LastValidators), propID(st.Validators), propID(st.NextValidators)
+	height := st.LastBlockHeight + 1
+	header := &types.Header{Height: height}
+	var ns LatestBlockState
+	var err error
+	panicked, msg := catch(func() {
+		ups := calculateValidatorSetUpdates(st.NextValidators.Validators, mkVals(report))
+		ns, err = updateState(log.New(), st, types.BlockID{}, header, ups)
+	})
+	status := errClass(err)
+	if panicked {
+		status = "PANIC"
+		w.o.Fail(w.step, "panic", fmt.Sprintf("block:%s next=%s report=%s", msg, recsStr(oldN), recsStr(report)))
+	} else {
+		// the state handed in is never modified (updateState works on copies)
+		if !sameRecs(oldL, snapOrNil(st.LastValidators)) || !sameRecs(oldC, snapOrNil(st.Validators)) || !sameRecs(oldN, snapOrNil(st.NextValidators)) ||
+			oldPL != propID(st.LastValidators) || oldPC != propID(st.Validators) || oldPN != propID(st.NextValidators) {
+			w.o.Fail(w.step, "atomic", fmt.Sprintf("updateState changed the state it was given: next was=%s now=%s report=%s", recsStr(oldN), recsStr(snapOrNil(st.NextValidators)), recsStr(report)))
+		}
+		// what the specification derives
+		changes, dup := specReportChanges(specRecs(w.specNext), report)
+		var want []sval
+		var errs map[string]bool
+		switch {
+		case dup:
+			errs = map[string]bool{"err:dup": true}
+			if _, e2 := specUpdate(specCopy(w.specNext), report, true, capTotal(), types.PriorityWindowSizeFactor); e2 != nil {
+				for k := range e2 {
+					errs[k] = true
+				}
+			}
+		case len(changes) == 0:
+			want = specCopy(w.specNext)
+		default:
+			want, errs = specUpdate(specCopy(w.specNext), changes, true, capTotal(), types.PriorityWindowSizeFactor)
+		}
+		switch {
+		case err != nil && errs == nil:
+			w.o.Fail(w.step, "spec-report", fmt.Sprintf("valid report rejected (%s): next=%s report=%s", status, recsStr(oldN), recsStr(report)))
+		case err == nil && errs != nil:
+			w.o.Fail(w.step, "rejects", fmt.Sprintf("invalid report accepted (%s): next=%s report=%s after=%s", classes(errs), recsStr(oldN), recsStr(report), recsStr(snapOrNil(ns.NextValidators))))
+		case err != nil:
+			if !errs[status] {
+				w.o.Fail(w.step, "spec-report", fmt.Sprintf("error class %s not among %s: next=%s report=%s", status, classes(errs), recsStr(oldN), recsStr(report)))
+			}
+			// all-or-nothing for the whole state: an error returns the state that was passed in
+			if ns.NextValidators != st.NextValidators || ns.Validators != st.Validators || ns.LastValidators != st.LastValidators ||
+				ns.LastBlockHeight != st.LastBlockHeight || ns.LastHeightValidatorsChanged != st.LastHeightValidatorsChanged {
+				w.o.Fail(w.step, "atomic", fmt.Sprintf("error %s but updateState returned another state (height %d -> %d, changed %d -> %d)", status, st.LastBlockHeight, ns.LastBlockHeight, st.LastHeightValidatorsChanged, ns.LastHeightValidatorsChanged))
+			}
+		default:
+			// the pipeline: Validators <- NextValidators, LastValidators <- Validators, NextValidators <- update + one round
+			w.specLast, w.specPLast = w.specCur, w.specPCur
+			w.specCur, w.specPCur = w.specNext, w.specPNext
+			w.specPNext = specIncrement(want, 1, types.PriorityWindowSizeFactor)
+			w.specNext = want
+			if len(changes) > 0 {
+				w.specLC = height + 2
+			}
+			w.chain = ns
+			if ns.LastBlockHeight != height {
+				w.o.Fail(w.step, "pipeline", fmt.Sprintf("LastBlockHeight=%d after the block at height %d", ns.LastBlockHeight, height))
+			}
+			// directly against the state before the block (independent of the running specification)
+			if !sameRecs(oldN, snapOrNil(ns.Validators)) || oldPN != propID(ns.Validators) {
+				w.o.Fail(w.step, "pipeline", fmt.Sprintf("Validators after the block at height %d is not the previous NextValidators: got=%s want=%s", height, recsStr(snapOrNil(ns.Validators)), recsStr(oldN)))
+			}
+			if !sameRecs(oldC, snapOrNil(ns.LastValidators)) || oldPC != propID(ns.LastValidators) {
+				w.o.Fail(w.step, "pipeline", fmt.Sprintf("LastValidators after the block at height %d is not the previous Validators: got=%s want=%s", height, recsStr(snapOrNil(ns.LastValidators)), recsStr(oldC)))
+			}
+			w.checkChainAgainstSpec("block")
+			checkCentred(w.o, w.step, snapOrNil(ns.NextValidators), "after-block")
+		}
+	}
+	w.note("block."+kind, status)
+	if status != "ok" {
+		w.o.Mark(fmt.Sprintf("block-reject:%s:%s:%s", status, recsStr(oldN), recsStr(report)))
+	} else {
+		w.o.Mark(fmt.Sprintf("block:%s:%s", recsStr(oldN), recsStr(report)))
+	}
+	a := 0
+	if ask {
+		a = 1
+	}
+	w.isolate(-1)
+	w.o.Op(fmt.Sprintf("B %d %d%s", a, len(report), triples(report)), w.chainLine(status, ask))
 }
 
 // genReport: a report of the full new validator set derived from the current one.
@@ -1472,6 +1763,7 @@ func runCase(o *c12Out, r *c12Rand, c int) {
 	}
 	o.Case(c, fmt.Sprintf("CASE %d", c))
 	fair := c%8 == 7
+	chainy := c%10 == 9 && !fair // mostly blocks through updateState on one carried state
 	n := 1 + r.Intn(8)
 	if r.Chance(1, 12) {
 		n = 9 + r.Intn(8)
@@ -1527,6 +1819,9 @@ func runCase(o *c12Out, r *c12Rand, c int) {
 		}
 	}
 	w.doNew(0, init, ask())
+	if chainy {
+		w.doGenesis(0, ask())
+	}
 	steps := 5 + r.Intn(36)
 	if fair {
 		steps = 3 + r.Intn(4)
@@ -1573,7 +1868,24 @@ func runCase(o *c12Out, r *c12Rand, c int) {
 			changed = true
 			continue
 		}
-		switch r.Pick(10, 9, 2, 1, 1, 4) {
+		weights := []int{10, 9, 2, 1, 1, 4, 3, 1}
+		if chainy {
+			weights = []int{3, 3, 1, 1, 1, 1, 24, 1}
+		}
+		switch r.Pick(weights...) {
+		case 6:
+			if !w.chainOn || r.Chance(1, 12) {
+				w.doGenesis(slot, ask())
+			} else {
+				rep, nm := w.genReport(snapOrNil(w.chain.NextValidators))
+				w.doBlock(rep, nm, ask())
+			}
+		case 7:
+			k := pickTimes(r, false)
+			if r.Chance(1, 30) {
+				k = -int64(r.Intn(2))
+			}
+			w.doCopyInc(slot, r.Intn(nSlots), k, ask())
 		case 5:
 			rep, nm := w.genReport(cur)
 			w.doReport(slot, rep, nm, ask())
@@ -1607,7 +1919,7 @@ func runCase(o *c12Out, r *c12Rand, c int) {
 	sig := fmt.Sprintf("%v|%s|%s", powers, strings.Join(w.kinds, ","), strings.Join(w.outs, ","))
 	nontrivial := false
 	for i, k := range w.kinds {
-		if strings.HasPrefix(k, "upd.") || w.outs[i] == "ok-rescaled" {
+		if strings.HasPrefix(k, "upd.") || strings.HasPrefix(k, "block.") || w.outs[i] == "ok-rescaled" {
 			nontrivial = true
 		}
 	}
